@@ -807,7 +807,7 @@ func (r *runner) writeEvidence(reports []*harnessReport, funcs map[string]int64,
 		"discharged":                    proved,
 		"queries":                       q,
 		"solver_time_s":                 solverS,
-		"solvers":                       []string{"z3 4.8.12 (-in)", "cvc5 1.0.3 --solve-bv-as-int=sum (fallback on unknown)"},
+		"solvers":                       []string{"staged portfolio: z3 5.1.0 (z3-new, 1.5 s) -> cvc5 1.0.3 -> z3 4.8.12 -> cvc5 --solve-bv-as-int=sum; the next stage is asked only when the previous one answers unknown/timeout; every sat model is re-validated by evaluating the query under it"},
 		"ssa_instructions_executed":     steps,
 		"functions_encoded_count":       nfuncs,
 		"functions_encoded_top":         fl,
